@@ -153,6 +153,70 @@ def _check_library(ctx, runname, basis, libdir, n, max_lines):
     ctx.extra.setdefault("libraries", []).append(dict(basis=runname, n=n, **stats))
 
 
+def _sampled_trees(ctx, bases, count, nlo, nhi):
+    """beyond the exhaustively generated libraries: PRNG-drawn trees of higher complexity pushed through the real
+    tree -> node_to_string -> initial_sympify (sympify + ESRPrinter) chain, then read back with both symbol tables"""
+    import sympy, warnings
+    warnings.filterwarnings("ignore")
+    from esr.generation import generator as g
+    import esr.generation.simplifier as simp
+    x, syms, gen, fit = _tables(4)
+    shapes = {n: [[int(v) for v in s] for s in g.get_allowed_shapes(n)] for n in range(nlo, nhi + 1)}
+    done = 0
+    import io, contextlib
+    with np.errstate(all="ignore"):
+        while done < count:
+            name, b = ctx.rng.choice(bases)
+            n = ctx.rng.randint(nlo, nhi)
+            s = ctx.rng.choice(shapes[n])
+            labels, k = [], 0
+            for a in s:
+                l = ctx.rng.choice(b[a])
+                if l == "a":
+                    if k >= 3:
+                        l = "x"
+                    else:
+                        l = "a%d" % k; k += 1
+                labels.append(l)
+            _, _, tree = g.check_tree(np.array(s))
+            fstr = g.node_to_string(0, tree, labels)
+            try:
+                with contextlib.redirect_stdout(io.StringIO()):
+                    out, _ = simp.initial_sympify([fstr], max(k, 1), parallel=False, verbose=False)
+                stored = out[0]
+            except Exception:
+                continue
+            done += 1
+            pts = [dict([("x", ctx.rng.uniform(0.3, 3.0))] + [("a%d" % j, ctx.rng.choice([-1, 1]) * ctx.rng.uniform(0.3, 3.0)) for j in range(4)]) for _ in range(4)]
+            tv = []
+            for p in pts:
+                try:
+                    tv.append(oracle_tree.eval_labels(labels, b, p))
+                except Exception:
+                    tv.append(float("nan"))
+            ok = 0
+            for tname, reader in (("generation", gen), ("fitting", fit)):
+                try:
+                    f = sympy.lambdify([x] + syms[:4], reader(stored), modules=["numpy"])
+                except Exception:
+                    continue
+                for p, t in zip(pts, tv):
+                    try:
+                        v = f(p["x"], p["a0"], p["a1"], p["a2"], p["a3"])
+                    except Exception:
+                        continue
+                    if not (_finite(v) and _finite(t)):
+                        continue
+                    ok += 1
+                    v = complex(v).real
+                    if abs(v - t) > 1e-7 * max(1.0, abs(v), abs(t)):
+                        ctx.fail("value:sampled:%s:%s" % (name, tname), "tree %r (basis %s): node_to_string %r is stored as %r, which read with the %s symbol table gives %.12g, the tree gives %.12g at %s" % (
+                            labels, name, fstr, stored, tname, v, t, {kk: round(val, 4) for kk, val in p.items()}), dict(kind="tree", labels=labels, basis=b, name=name))
+                        break
+            ctx.case(("sampled", name, tuple(labels)), nontrivial=ok > 0)
+    ctx.extra["sampled_trees"] = done
+
+
 def run(ctx):
     drift = extract.drifted(ctx.proof.get("extract", {}), MODELLED)
     deep = (not ctx.quick) or bool(drift)
@@ -174,11 +238,32 @@ def run(ctx):
             continue
         for k in range(1, nmax + 1):
             _check_library(ctx, rn, bmap[rn], r["dir"], k, 1500 if not deep else 12000)
+    _sampled_trees(ctx, shipped, 1200 if not deep else 12000, 6, 8 if not deep else 9)
     ctx.sample(ctx.extra.get("libraries", [])[-3:])
 
 
 def replay(ctx, data):
     rp = data["replay"]
+    if rp.get("kind") == "tree":
+        c2 = common.Ctx("C02", "quick", 0); c2.tmp = ctx.tmp; c2.stage = ctx.stage
+        import numpy as _np
+        from esr.generation import generator as g
+        import esr.generation.simplifier as simp
+        s = g.labels_to_shape(rp["labels"], rp["basis"])
+        _, _, tree = g.check_tree(_np.array(s))
+        fstr = g.node_to_string(0, tree, rp["labels"])
+        stored = simp.initial_sympify([fstr], 3, parallel=False, verbose=False)[0][0]
+        x, syms, gen, fit = _tables(4)
+        import sympy
+        bad = False
+        for _ in range(6):
+            p = dict([("x", c2.rng.uniform(0.3, 3.0))] + [("a%d" % j, c2.rng.choice([-1, 1]) * c2.rng.uniform(0.3, 3.0)) for j in range(4)])
+            t = oracle_tree.eval_labels(rp["labels"], rp["basis"], p)
+            for reader in (gen, fit):
+                v = sympy.lambdify([x] + syms[:4], reader(stored), modules=["numpy"])(p["x"], p["a0"], p["a1"], p["a2"], p["a3"])
+                if _finite(v) and _finite(t) and abs(complex(v).real - t) > 1e-7 * max(1.0, abs(t)):
+                    print("tree", rp["labels"], "stored as", stored, ": string", v, "tree", t); bad = True
+        return not bad
     from extractors import shape as shx
     bmap = {n: b for n, b, _ in shx.bases(ctx.stage)}
     c2 = common.Ctx("C02", "quick", 0); c2.tmp = ctx.tmp; c2.stage = ctx.stage
